@@ -34,6 +34,23 @@ fn c01_prologue() {
     kani::cover!(min == max && max > 0);
     assert!(r.is_ok() == (follow && seen), "OBL C01.prologue: a directory is skipped up front only when following symlinks and already visited - never because of the depth window");
 }
+// C01: "symbolic links are listed but not descended into unless `symlinks` is given"; a directory is entered at most once,
+// identified by the ENTRY'S OWN inode - looking at an unfollowed link must not mark its target as visited.
+#[kani::proof]
+#[kani::unwind(4)]
+fn c01_ok_to_visit() {
+    let follow: bool = kani::any(); let is_link: bool = kani::any();
+    let own: u64 = kani::any(); let target: u64 = kani::any(); let seen: u64 = kani::any();
+    kani::assume(own != target);
+    let mut s = Searcher::new(follow);
+    s.visited_inodes.items.push(seen);
+    let e = DirEntry { own_ino: own, target_ino: if is_link { target } else { own } };
+    let r = s.ok_to_visit_dir(&e, FileType { symlink: is_link });
+    kani::cover!(is_link && !follow && seen != own);
+    assert!(r == (seen != own && (follow || !is_link)), "OBL C01.ok_to_visit: enter iff not yet visited and (not a symlink or symlinks are followed)");
+    assert!(s.visited_inodes.contains(&own) || seen == own, "OBL C01.ok_to_visit: the entry's own inode is recorded");
+    if is_link && seen != target { assert!(!s.visited_inodes.contains(&target), "OBL C01.ok_to_visit: looking at a link does not mark its target as visited"); }
+}
 #[kani::proof]
 #[kani::unwind(4)]
 fn canary_traversal_must_fail() {
